@@ -83,9 +83,25 @@ def replay_one(prop, path):
 RESP_INV = ["TypeOK", "EncodeExact", "OutputCanonical", "FitsOrOneByteError", "Emit"]
 
 
+ENC_PROPS = {"encode2": ["C02", "C03", "C17"], "encode_type": ["C02", "C03"], "authdata": ["C07", "C03"],
+             "u2f_encode": ["C09"], "apdu": ["C08"], "decode2": ["C01", "C04", "C05"], "decode_type": ["C04"]}
+
+
+def value_traces(chk, cfg, module, cases, n, seed, run, extra=""):
+    """impl -> spec for the encoders: mutate the abstract values of TLC-generated vectors (contents,
+    lengths within capacity, dropped options, flipped booleans, nudged integers), run the real
+    encoder, validate every event with the trace specification."""
+    r = tlc(module, scenario_cfg(cfg, cases, ["TypeOK", "Emit"], 1, extra), run + ".seeds", workers=8)
+    if not r["ok"]:
+        raise ToolError("TLC %s failed:\n%s" % (run, "\n".join(r["log"][-30:])))
+    chk.add_tlc(r)
+    return drive_and_validate(chk, cfg, "mutate:" + r["vec_path"], n, seed, ENC_PROPS, run, shards=6)
+
+
 def plan_C02(chk, tier, seed):
     cfgs = ["none", "all"] if tier == "quick" else ALL8
     vectors(chk, "MC_Responses", "MC_Cases", cfgs, ["C02"], RESP_INV)
+    value_traces(chk, "all", "MC_Responses", "MC_Cases", 1500 if tier == "quick" else 30000, seed, "C02.values")
     return ("every subset of the optional members of every response kind (exhaustive up to 9 optional members, "
             "otherwise {}, all pairs, full), statement shapes, COSE key kinds, integer/byte/list lattices; TLC checks "
             "EncodeExact on the model (generic parser vs table) and emits vectors replayed through "
@@ -96,6 +112,9 @@ def plan_C02(chk, tier, seed):
 def plan_C03(chk, tier, seed):
     cfgs = ["none", "all"] if tier == "quick" else ALL8
     vectors(chk, "MC_Responses", "MC_Cases", cfgs, ["C03"], RESP_INV)
+    value_traces(chk, "all", "MC_Responses", "MC_Cases", 1500 if tier == "quick" else 30000, seed + 1, "C03.values")
+    if tier == "thorough":
+        value_traces(chk, "all", "MC_AuthData", "MC_Cases", 10000, seed + 2, "C03.authdata.values", extra="    Deep = FALSE\n")
     return ("every pair of members of every serialisable map type (plus exhaustive subsets of the small ones) in "
             "each feature configuration, integers across the 1/2/3/5/9-byte head thresholds; TLC checks "
             "OutputCanonical on the model; the observed bytes of every deviating vector are judged by "
@@ -118,6 +137,7 @@ def plan_C17(chk, tier, seed):
             raise ToolError("TLC %s failed:\n%s" % (run, "\n".join(r["log"][-30:])))
         chk.add_tlc(r)
         judge_vectors(chk, cfg, r, run, ["C17"])
+    value_traces(chk, "all", "MC_Buffer", "MC_Cases", 1500 if tier == "quick" else 30000, seed, "C17.values")
     # complete exchanges over a reused buffer: histories of two exchanges, with the liveness property
     # that every exchange terminates
     run = "C17.MC_Session.hist"
@@ -294,6 +314,8 @@ def plan_C07(chk, tier, seed):
     deep = "TRUE" if tier == "thorough" else "FALSE"
     simple(chk, "MC_AuthData", cfgs, ["C07"], ["TypeOK", "AuthDataLayout", "OutputCanonical", "Emit"],
            extra_constants="    Deep = %s\n" % deep)
+    value_traces(chk, "all", "MC_AuthData", "MC_Cases", 1500 if tier == "quick" else 30000, seed, "C07.values",
+                 extra="    Deep = FALSE\n")
     return ("16 flag sets x 8 counters x 2 flavours; attested credential data with aaguid of 0/16/17 bytes, public key "
             "of 0/77/200 bytes and credential-id lengths 0..8, +-3 around every fit/overflow frontier (thorough: every "
             "length 0..700) and 65534..70000; every subset of extension outputs in both flavours, also combined with "
@@ -303,6 +325,9 @@ def plan_C07(chk, tier, seed):
 
 def plan_C08(chk, tier, seed):
     simple(chk, "MC_U2f", ["none"], ["C08"], ["TypeOK", "U2fParse", "Emit"], workers=12)
+    # byte-level mutations of those APDUs (framing included), every event validated by the trace specification
+    seeds = os.path.join(WORK, "tlc", "C08.MC_U2f.MC_Cases.none.vec")
+    drive_and_validate(chk, "none", "mutate:" + seeds, 2000 if tier == "quick" else 40000, seed, ENC_PROPS, "C08.mutate", shards=6)
     return ("every class byte 0x00..0xFF x instruction classes x data; all 256 instructions x {class 0, 1}; all 256 P1 "
             "(x P2 0/255) for instructions 1-3; 30 data classes (0..256 bytes, authenticate bodies with consistent and "
             "inconsistent key-handle length bytes up to 255/256) x the four ISO 7816-4 length encodings; malformed "
@@ -313,6 +338,8 @@ def plan_C08(chk, tier, seed):
 def plan_C09(chk, tier, seed):
     deep = "TRUE" if tier == "thorough" else "FALSE"
     simple(chk, "MC_U2fResp", ["none"], ["C09"], ["TypeOK", "U2fEncode", "Emit"], extra_constants="    Deep = %s\n" % deep)
+    seeds = os.path.join(WORK, "tlc", "C09.MC_U2fResp.MC_Cases.none.vec")
+    drive_and_validate(chk, "none", "mutate:" + seeds, 1500 if tier == "quick" else 30000, seed, ENC_PROPS, "C09.values", shards=6)
     return ("register / authenticate / version responses with part lengths chosen so that the total crosses every "
             "instantiated buffer capacity (0..80, 255..258, 320..330, 1024, 1100, 1500) within +-2 and falls inside "
             "every part in turn, pre-filled buffers of 0/1/7 bytes, counters at every byte boundary, all header / "
